@@ -36,7 +36,7 @@ Check (C16_pow_zero_neg : forall a n, a == 0 -> (n < 0)%Z -> fits_i64 n = true -
 Check (C16_pow_0_r : forall a, npow a 0 = Ok 1).
 Check (C16_pow_succ : forall a n x, (0 <= n)%Z -> fits_i64 n = true -> fits_i64 (n + 1) = true -> npow a (inject_Z n) = Ok x -> npow a (inject_Z (n + 1)) = Ok (nmul x a)).
 Check (C16_pow_unspecified : forall a b, as_i64 b = None -> npow a b = Unspec).
-Check (C16_pow_doc_range_refuted : exists a n, (- 2 ^ 63 <= n <= 2 ^ 64 - 1)%Z /\ npow a (inject_Z n) = Unspec).
+Check (C16_pow_beyond_i64_unspecified : exists a n, (- 2 ^ 63 <= n <= 2 ^ 64 - 1)%Z /\ npow a (inject_Z n) = Unspec).
 Check (C16_from_sci_spec : forall l, from_sci l == (inject_Z (Z.of_N (digits_val (l_int l))) + inject_Z (Z.of_N (digits_val (l_frac l))) / (10 # 1) ^ Z.of_nat (List.length (l_frac l))) * (10 # 1) ^ l_exp l).
 Check (C16_from_sci_canonical : forall l, Qred (from_sci l) = from_sci l).
 Check (C16_from_sci_leading_zero : forall i f e, from_sci (mkLit (0%N :: i) f e) = from_sci (mkLit i f e)).
